@@ -92,6 +92,8 @@ type VersionedFetcher struct {
 	// Transient version store
 	root  corekv.TxnStore
 	store datastore.Txn
+	// closeRootCtx releases the context (and with it the goroutines) of the transient store
+	closeRootCtx context.CancelFunc
 
 	queuedCids    *list.List
 	queuedHeights map[cid.Cid]uint64
@@ -121,7 +123,14 @@ func (vf *VersionedFetcher) Init(
 	vf.txn = txn
 
 	// create store
-	root := memory.NewDatastore(ctx)
+	//
+	// The lifetime of the transient store is managed by this fetcher (see Close) and not by the
+	// context of the request: the store closes itself as soon as its context is done, and closing it
+	// while one of its operations is in flight (a request cancelled in the middle of a time-travel
+	// read, e.g. a subscription whose client went away) blocks that operation forever.
+	rootCtx, closeRootCtx := context.WithCancel(context.WithoutCancel(ctx))
+	vf.closeRootCtx = closeRootCtx
+	root := memory.NewDatastore(rootCtx)
 	vf.root = root
 
 	// Copy the entire system store into the temp store so that important stuff
@@ -440,6 +449,10 @@ func (vf *VersionedFetcher) getDAGBlock(c cid.Cid) (*coreblock.Block, error) {
 
 // Close closes the VersionedFetcher.
 func (vf *VersionedFetcher) Close() error {
+	if vf.closeRootCtx != nil {
+		defer vf.closeRootCtx()
+	}
+
 	if err := vf.root.Close(); err != nil {
 		return err
 	}
